@@ -11,15 +11,15 @@ except Exception:
     E2 = []
 
 CLAIMS = {
- "C01": ("Kernel obligations behind exactly-once, in-order delivery: the replay window (one-step induction over every state), packet-number truncation/expansion over the whole RFC window, SendBuffer::poll_transmit range/size arithmetic (both branches, full width, via MIR->SMT), final-size discipline of Recv::ingest, one iteration of the Assembler::defragment trimming loop (frontier monotone, nothing kept below it, bytes keep their stream position). Each holds for ALL inputs within the stated bounds.",
+ "C01": ("Kernel obligations behind exactly-once, in-order delivery: the replay window (one-step induction over every state), packet-number truncation/expansion over the whole RFC window, SendBuffer::poll_transmit range/size arithmetic (both branches, full width, via MIR->SMT), final-size discipline of Recv::ingest, one iteration of the Assembler::defragment trimming loop (frontier monotone, nothing kept below it, bytes keep their stream position), the switch to unordered reads remembering the consumed prefix, and Chunks::next reporting end of stream only when every byte up to the final size was read. Each holds for ALL inputs within the stated bounds.",
          "Partial: retransmission scheduling, loss detection, multi-chunk reassembly, unordered reads and everything needing a Connection are outside the claim (DESIGN §4 C01)."),
  "C03": ("Absence of panic / overflow / out-of-bounds in decoders and peer-driven arithmetic kernels for all inputs in the enumerated structure classes, plus the stated post-conditions (error class, state unchanged on error).",
          "Partial: state-dependent panics inside Connection/Endpoint, CidState, payloads longer than the stated lengths are outside the claim (DESIGN §4 C03)."),
- "C04": ("The replay filter accepts every packet number at most once in any history (one-step induction from an arbitrary window state); reset-token / constant-time comparison equals byte equality for all inputs; every authenticated packet (Retry / Version Negotiation included) is counted by Connection::on_packet_authenticated; the peer's transport parameters are accepted exactly when the connection IDs they echo match the ones seen on the wire (Connection::handle_peer_params, all CID bytes symbolic).",
+ "C04": ("The replay filter accepts every packet number at most once in any history (one-step induction from an arbitrary window state); reset-token / constant-time comparison equals byte equality for all inputs; every authenticated packet (Retry / Version Negotiation included) is counted by Connection::on_packet_authenticated; the peer's transport parameters are accepted exactly when the connection IDs they echo match the ones seen on the wire (Connection::handle_peer_params, all CID bytes symbolic); which keys authenticate a packet (current / previous / next key phase, 0-RTT; packet_crypto::decrypt_packet_body), that keys rotate exactly on a packet authenticated under the next keys (Connection::decrypt_packet), and what one rotation does (Connection::update_keys).",
          "Narrow: the order decrypt -> dedup -> process inside handle_packet, key-phase selection, Retry/VN acceptance and the first-Initial path are Connection code and NOT covered (DESIGN §4 C04, §5)."),
  "C05": ("Step cases of 'never exceed peer limits': write budget = min(limit, max_data - offset, source), connection write_limit, monotone MAX_DATA / MAX_STREAM_DATA / MAX_STREAMS under stale and reordered updates, for all 62-bit values.",
          "Partial: the wire-level sum over all streams, Streams::open (hash map) in E1, 0-RTT remembered limits are outside (DESIGN §4 C05)."),
- "C06": ("Receiver-side limit enforcement kernels: Recv::ingest/reset verdict table (FLOW_CONTROL_ERROR / FINAL_SIZE_ERROR iff ...), validate_receive_id (STREAM_LIMIT_ERROR / STREAM_STATE_ERROR iff ...), credit return arithmetic (add_read_credits, set_receive_window, max_stream_data) for all 62-bit values.",
+ "C06": ("Receiver-side limit enforcement kernels: Recv::ingest/reset verdict table (FLOW_CONTROL_ERROR / FINAL_SIZE_ERROR iff ...), validate_receive_id (STREAM_LIMIT_ERROR / STREAM_STATE_ERROR iff ...), credit return arithmetic (add_read_credits, set_receive_window, max_stream_data) for all 62-bit values; StreamsState::received / received_reset hand Recv::{ingest,reset} the connection's data_recvd and OUR local_max_data and charge exactly the new bytes (MIR->SMT).",
          "Partial: CRYPTO buffer limit, TooManyChunks, connection-wide buffered-bytes bound need Connection / the stream map (DESIGN §4 C06)."),
  "C07": ("The anti-amplification predicate: not blocked implies validated or total_sent + bytes <= 3 * total_recvd, for all counters below 2^62.",
          "Narrow: call sites in poll_transmit, crediting of received bytes, stateless reset sizing and the <1200-byte Initial rule are Connection/Endpoint code (DESIGN §4 C07)."),
@@ -33,15 +33,15 @@ CLAIMS = {
          "Partial: application events, stream-count release and Chunks need the stream hash maps (DESIGN §4 C11)."),
  "C12": ("Built-in controllers never report a window below two datagrams after any single event from any state satisfying the invariant; in-flight accounting insert/remove is an exact inverse; ACKs of skipped packet numbers are rejected.",
          "Partial: the gate in poll_transmit and exactly-once accounting over ack/loss/discard paths are Connection code (DESIGN §4 C12)."),
- "C13": ("MTU discovery as an inductive invariant: from EVERY state satisfying the representation invariant, one step of poll_transmit / on_acked / on_probe_lost / peer-limit reception / black-hole detection keeps probes within peer and configured limits, raises the estimate only on an acked probe of exactly that size, never drops it below min(min_mtu, peer limit), keeps at most one probe in flight and makes the search terminate.",
+ "C13": ("MTU discovery as an inductive invariant: from EVERY state satisfying the representation invariant, one step of poll_transmit / on_acked / on_probe_lost / peer-limit reception / black-hole detection keeps probes within peer and configured limits, raises the estimate only on an acked probe of exactly that size, never drops it below min(min_mtu, peer limit), keeps at most one probe in flight and makes the search terminate; the peer's max_udp_payload_size reaches MTU discovery saturated to u16 (set_peer_params, migrate); DATAGRAM frames are written and admitted only within the current MTU (e2_dgram_write, e2_datagrams_max_size).",
          "Partial: every datagram size decision in poll_transmit / PacketBuilder (padding, loss-probe clamp, GSO) is outside (DESIGN §4 C13)."),
  "C14": ("Token validation kernels: for a genuine token presented from a symbolic address at a symbolic time, 'validated' implies address (and port for Retry) equality, lifetime and (NEW_TOKEN) log acceptance, the reuse log being consulted with the token's own nonce / issue time; constant-time token comparison = equality; the client accepts the server's transport parameters only if initial_src_cid, original_dst_cid and retry_src_cid echo the connection IDs actually used (RFC 9000 7.3, all 20 CID bytes symbolic).",
          "Assumes AEAD authenticity (stub accepts exactly what it sealed); BloomTokenLog, TokenMemoryCache, Retry integrity tag, CID echo check are outside (DESIGN §4 C14)."),
  "C15": ("Three kernels of migration safety: Connection::migrate leaves the new path unvalidated with a pending challenge and the validation timer armed, and replaces the path to fall back to only by a path that was not itself awaiting validation (every connection state, MIR->SMT); a datagram from an address other than the established one is ignored (nothing credited, counted or processed) unless this is a server whose configuration permits migration - decided for every outcome of the address comparison and of remote_may_migrate; and a path created for a migrated peer starts unvalidated with zeroed amplification counters and nothing in flight, whatever the previous path's state.",
          "Narrow: PATH_CHALLENGE/RESPONSE processing, the PathValidation timeout handler and the migration trigger in process_payload are Connection code with loops and are outside the claim."),
- "C16": ("DatagramState kernels with <= 2 queued datagrams: oldest dropped first, window never exceeded, send-buffer accounting consistent, write emits only what fits.",
-         "Partial: Datagrams::{send,max_size} take a Connection; at-most-once under packet duplication is C01.a + handle_packet (DESIGN §4 C16)."),
- "C19": ("Control-message encoder/decoder stay within their buffers and round-trip (level, type, value) for every option subset prepare_msg uses; ECN/stride decoding of symbolic control blocks; the receive control buffer (cmsg::LEN) holds every set of control messages Linux attaches for the options the socket enables (timestamp, GRO, packet info, TOS/traffic class; IPv4 and IPv6).",
+ "C16": ("DatagramState kernels with <= 1 queued datagram (oldest dropped first, window never exceeded, send-buffer accounting consistent) under Kani; and on the MIR of the real Connection methods: Datagrams::max_size = min(peer limit - 9, MTU - overhead - 9), Datagrams::send admits exactly what fits (Disabled / UnsupportedByPeer / TooLarge / Blocked verdict table), DatagramState::write emits a frame iff the frame as encoded fits.",
+         "Partial: queues of two or more datagrams (VecDeque::retain / pop loops) exhaust CBMC; the call sites in populate_packet / loss handling and at-most-once under packet duplication (C01.a + handle_packet) are outside (DESIGN §4 C16, §9)."),
+ "C19": ("Control-message encoder/decoder stay within their buffers and round-trip (level, type, value) for every option subset prepare_msg uses; ECN/stride decoding of symbolic control blocks; the receive control buffer (cmsg::LEN) holds every set of control messages Linux attaches for the options the socket enables (timestamp, GRO, packet info, TOS/traffic class; IPv4 and IPv6); the real prepare_msg conveys destination, ECN bits, segment size and requested source address for every Transmit; the GSO probe leaves no socket-wide segmentation behind (quinn-udp MIR).",
          "cmsg layer only: sockets, GSO/GRO and fallbacks are kernel behaviour behind FFI (DESIGN §4 C19)."),
 }
 
